@@ -153,6 +153,48 @@ def def_task(t):
                 harness_errors=st.harness_errors, max_depth=st.max_depth)
 
 
+def rereg_task(t):
+    """register A under a name, use it (three spellings), register B under the SAME name, then every use must follow B"""
+    pairs = t
+    ns = seams.load()
+    viols = []
+    n = 0
+    for k, (da, db) in pairs:
+        ident, cls_a, entry_a, *_ = build(da, k)
+        _i, cls_b, entry_b, *_ = build(db, k)
+        tab_b = dict(T.COMMANDS)
+        tab_b[ident] = entry_b
+        ext = T.KNOWN_EXTENSIONS + (EXT,)
+
+        def uses(defn, spell):
+            role, e, tags, pos = defn
+            w = (("require", '"%s"' % EXT, ";") if e else ())
+            body = (spell,) + tuple(required_syms(pos))
+            return w + ((("if",) + body + ("{", "}")) if role == "test" else (body + (";",)))
+
+        try:
+            ns.commands.add_commands(cls_a)
+            for spell in (ident, ident.upper(), ident.capitalize()):
+                E.execute(uses(da, spell), commands=(dict(T.COMMANDS, **{ident: entry_a}), ext), want_config=False)
+                n += 1
+            ns.commands.add_commands(cls_b)
+            for spell in (ident, ident.upper(), ident.capitalize()):
+                for d in (da, db):
+                    c = E.execute(uses(d, spell), commands=(tab_b, ext), want_config=False)
+                    n += 1
+                    for v in E.oracle_c01(c) + E.oracle_c03(c):
+                        v["property"] = "C20"
+                        v["signature"] = ["C20", "re-registered:" + v["signature"][1], v["signature"][2], "custom",
+                                          "spelling:" + ("lower" if spell == ident else ("upper" if spell == ident.upper() else "capitalised")), None,
+                                          _kinds(da) + " -> " + _kinds(db)]
+                        v["rereg"] = [[da[0], da[1], list(da[2]), list(da[3])], [db[0], db[1], list(db[2]), list(db[3])]]
+                        v["k"] = k
+                        viols.append(v)
+        finally:
+            vars(ns.commands).pop(cls_a.__name__, None)
+    return dict(states=0, transitions=n, executions=n, verdicts={}, refkinds={}, nontrivial=0, sample=[], violations=viols, harness_errors=[], max_depth=0)
+
+
 def _kinds(defn):
     return "%s/%s/tags=%s/pos=%s" % (defn[0], "ext" if defn[1] else "noext", "+".join(defn[2]) or "-", "+".join(defn[3]))
 
@@ -216,6 +258,12 @@ def run(tier, seed):
         depth = 7
     tasks = [(k, d, min(depth, 2 * len(d[2]) + len(d[3]) + 2), seed) for k, d in enumerate(defs)]
     results = pool.run_tasks("checks.c20:def_task", tasks, chunksize=4)
+    small = definitions(1, 2)
+    pairs = [(10000 + i, (a, b)) for i, (a, b) in enumerate(itertools.permutations(small, 2)) if a[0] == b[0]]
+    if tier == "quick":
+        pairs = pairs[::7]
+    chunks = [pairs[i::16] for i in range(16)]
+    results += pool.run_tasks("checks.c20:rereg_task", [c for c in chunks if c])
     cov = dict(states=0, transitions=0, executions=0)
     viols = []
     harness = []
@@ -250,6 +298,10 @@ def run(tier, seed):
 
 
 def replay(payload):
+    if payload.get("rereg"):
+        da, db = [(d[0], d[1], tuple(d[2]), tuple(d[3])) for d in payload["rereg"]]
+        r = rereg_task([(payload.get("k", 10000), (da, db))])
+        return [v for v in r["violations"] if v["signature"][:5] == payload["signature"][:5]]
     defn = payload["definition"]
     defn = (defn[0], defn[1], tuple(defn[2]), tuple(defn[3]))
     ns = seams.load()
